@@ -61,9 +61,12 @@ def seeds_table():
     for r in rows:
         out.append("| " + " | ".join(r) + " |")
     n = len([r for r in rows if r[3] == "yes"])
-    nd = len([r for r in rows if r[3] == "yes" and r[4] != "**missed**"])
+    nd = len([r for r in rows if r[3] == "yes" and r[4] not in ("**missed**", "n/a")])
+    nn = len([r for r in rows if r[3] == "yes" and r[4] == "n/a"])
+    nm = len([r for r in rows if r[3] == "yes" and r[4] == "**missed**"])
     out.append("")
-    out.append(f"{len(rows)} seeded changes recorded, {n} of them confirmed on the current tree, {nd} of those detected by the quick tier of the seeded property's check (last full re-run with the committed checks).")
+    out.append(f"{len(rows)} seeded changes recorded, {n} of them confirmed on the current tree: {nd} detected by the quick tier of the seeded property's check "
+               f"(last run of each seed against the committed checks), {nn} deliberately not pursued (n/a, reason in the NOTE), {nm} missed.")
     return "\n".join(out)
 
 
